@@ -746,7 +746,9 @@ def check(pid, tier, seed):
                     own.append(r)
     # 1b. the harness's own assertions about the implementation (it prints them and dies): the history up to the
     #     death is a concrete failing input for the properties the assertion speaks about
-    HARNESS_ASSERTS = [('handle equality', (14,), 'handle equality (==, !=, Hash) disagrees with bit equality: handles of distinct entities compare equal, or equal handles compare unequal or hash differently'),
+    HARNESS_ASSERTS = [('clone_from differs', (13,), 'Clone::clone_from into another world gives a world that differs (bookkeeping dump or rows) from what clone() gives'),
+                       ('iterator adaptor', (6, 2), 'Archetype::iter()/iter_mut() consumed through the standard adaptors (skip, step_by, nth, count, last) presents other items than a plain loop over it'),
+                       ('handle equality', (14,), 'handle equality (==, !=, Hash) disagrees with bit equality: handles of distinct entities compare equal, or equal handles compare unequal or hash differently'),
                        ('try_from/from_any disagree', (14, 19, 3), 'try_from and from_any disagree on the same dynamically typed handle (one accepts what the other refuses)'),
                        ('slice length mismatch', (6, 12, 2, 3), 'a slice accessor presents a number of items different from len()'),
                        ('canary', (2, 3, 10), 'a component value read back is not a value that was stored (canary bytes differ)'),
